@@ -267,14 +267,22 @@ impl<F: Write + Seek> MiniAllocator<F> {
             header.write_le_u32(self.minifat_start_sector)?;
             header.write_le_u32(1)?;
         } else if self.minifat.len() % minifat_entries_per_sector == 0 {
+            // The MiniFAT chain keeps its sectors when trailing free entries
+            // are trimmed from `self.minifat`, so only extend the chain if it
+            // really has no room left for one more entry.
             let start = self.minifat_start_sector;
-            self.directory.extend_chain(start, SectorInit::Fat)?;
-            let num_minifat_sectors = self
-                .directory
-                .open_chain(start, SectorInit::Fat)?
-                .num_sectors() as u32;
-            let mut header = self.directory.seek_within_header(64)?;
-            header.write_le_u32(num_minifat_sectors)?;
+            let needed_len = (self.minifat.len() as u64 + 1) * 4;
+            let chain_len =
+                self.directory.open_chain(start, SectorInit::Fat)?.len();
+            if chain_len < needed_len {
+                self.directory.extend_chain(start, SectorInit::Fat)?;
+                let num_minifat_sectors = self
+                    .directory
+                    .open_chain(start, SectorInit::Fat)?
+                    .num_sectors() as u32;
+                let mut header = self.directory.seek_within_header(64)?;
+                header.write_le_u32(num_minifat_sectors)?;
+            }
         }
         // Add a new mini sector to the end of the mini stream and return it.
         let new_mini_sector = self.minifat.len() as u32;
@@ -299,10 +307,21 @@ impl<F: Write + Seek> MiniAllocator<F> {
                 self.directory.begin_chain(SectorInit::Zero)?
             } else {
                 if mini_stream_len % sector_len as u64 == 0 {
-                    self.directory.extend_chain(
-                        mini_stream_start_sector,
-                        SectorInit::Zero,
-                    )?;
+                    // The mini stream's chain keeps its sectors when the
+                    // mini stream shrinks, so only extend the chain if it
+                    // really has no room left for one more mini sector.
+                    let needed_len =
+                        mini_stream_len + consts::MINI_SECTOR_LEN as u64;
+                    let chain_len = self
+                        .directory
+                        .open_chain(mini_stream_start_sector, SectorInit::Zero)?
+                        .len();
+                    if chain_len < needed_len {
+                        self.directory.extend_chain(
+                            mini_stream_start_sector,
+                            SectorInit::Zero,
+                        )?;
+                    }
                 }
                 mini_stream_start_sector
             };
